@@ -76,6 +76,38 @@ func VerifPropertyPatches() {
 	verifrt.Assert(got == s2, "ok implies substituting the patches into s1 yields s2")
 }
 
+func verifSmall(name string, n int) string {
+	s := verifrt.String(name, n)
+	for i := 0; i < len(s); i++ {
+		c := s[i]
+		verifrt.Assume(verifrt.Or(c == '.', verifrt.Or(c == '0', c == '1')))
+	}
+	return s
+}
+
+// VerifTwoPlaceholders: s1 = L0 ${a} L1 ${b} L2 with literal chunks over {'.','0','1'} of the
+// given lengths (reaching shapes far longer than the byte-symbolic runs), s2 over the same alphabet.
+func VerifTwoPlaceholders() {
+	l0 := verifSmall("l0", verifrt.Param("l0"))
+	l1 := verifSmall("l1", verifrt.Param("l1"))
+	l2 := verifSmall("l2", verifrt.Param("l2"))
+	s2 := verifSmall("s2", verifrt.Param("n2"))
+	second := "${b}"
+	if verifrt.Choice("same-property-twice", 2) == 1 {
+		second = "${a}"
+		verifrt.Tag("C13-same-property-twice")
+	}
+	s1 := l0 + "${a}" + l1 + second + l2
+	patches, ok := generatePropertyPatches(s1, s2)
+	if !ok {
+		verifrt.Reach("not-ok")
+		return
+	}
+	verifrt.Reach("ok")
+	got := verifSubstitute(s1, patches)
+	verifrt.Assert(got == s2, "ok implies substituting the patches into s1 yields s2")
+}
+
 // VerifTwin must be violated.
 func VerifTwin() {
 	s1 := verifrt.String("s1", 5)
